@@ -150,6 +150,10 @@ VARIANTS = {
              "-fno-sanitize=vptr,alignment,shift-base -fno-sanitize-recover=undefined",
              "-fsanitize=address,undefined"),
     "tsan": ("Debug", "-O1 -g1 -fno-omit-frame-pointer -fsanitize=thread", "-fsanitize=thread"),
+    # what a Release build of the library really is: NDEBUG defined, so VBK_ASSERT_MSG_DEBUG and assert() expand to
+    # nothing while VBK_ASSERT / VBK_ASSERT_MSG stay active (used where the property is about a guard that must
+    # survive in production builds)
+    "ndebug": ("Release", "-O1 -g0 -DNDEBUG", ""),
 }
 
 
